@@ -48,7 +48,8 @@ struct Case {
     n: u64,
     pat: String,
     served: Vec<(String, Vec<u8>)>,          // (file name, content whose digest is served)
-    imm: Vec<(String, Vec<u8>)>,             // files of <db>/immutable
+    imm: Vec<(String, Vec<u8>)>,             // regular files of <db>/immutable
+    nonreg: Vec<(String, String, Vec<u8>)>,  // (name, "dir" | "link" | "dangling", content behind the link)
     decoy: String,                           // none | first | after
     extra: Vec<(String, Vec<u8>)>,           // other files, relative to <db>
     range: (String, u64, u64),
@@ -181,6 +182,27 @@ impl Runner {
         for (rel, bytes) in &case.extra {
             write_file(&db.join(rel), bytes);
         }
+        // entries that are no regular files, under immutable file names
+        for (name, kind, bytes) in &case.nonreg {
+            let p = db.join("immutable").join(name);
+            match kind.as_str() {
+                "dir" => write_file(&p.join("inner.bin"), b"a directory, not a file"),
+                "link" => {
+                    // to another immutable of the same directory when one carries that content,
+                    // else to a copy kept elsewhere
+                    match case.imm.iter().find(|(n, b)| b == bytes && n != name) {
+                        Some((sibling, _)) => std::os::unix::fs::symlink(sibling, &p).unwrap(),
+                        None => {
+                            let target = db.join("elsewhere").join(name);
+                            write_file(&target, bytes);
+                            std::os::unix::fs::symlink(&target, &p).unwrap();
+                        }
+                    }
+                }
+                "dangling" => std::os::unix::fs::symlink(db.join("elsewhere").join(format!("nothing-{name}")), &p).unwrap(),
+                k => panic!("unknown entry kind {k}"),
+            }
+        }
         if let Some(x) = &decoy_parent {
             for (name, bytes) in &w.cert {
                 write_file(&db.join(x).join("immutable").join(name), bytes);
@@ -264,45 +286,72 @@ impl Runner {
             cert_by_name.insert(name.clone(), did);
             cert_p.push(json!({"name": name, "num": num, "did": did}));
         }
-        let mut dir_p: Vec<(u64, String, u64)> = vec![];
+        // the files of the directory as a reader gets them: regular files ("reg") and regular files
+        // reached through a symbolic link ("link"); what is no file (directory, dangling link, link
+        // to a directory) is listed apart
+        let mut dir_p: Vec<(u64, String, u64, &str)> = vec![];
+        let mut nonfiles: Vec<(u64, String, &str)> = vec![];
         for name in readdir_order(&db.join("immutable")) {
             let p = db.join("immutable").join(&name);
-            if !std::fs::symlink_metadata(&p).unwrap().is_file() {
-                continue;
-            }
-            if let Some((num, _)) = parse_immutable_name(&name) {
-                dir_p.push((num, name, self.int.id_of_file(&p)));
+            let Some((num, _)) = parse_immutable_name(&name) else { continue };
+            let md = std::fs::symlink_metadata(&p).unwrap();
+            if md.is_file() {
+                dir_p.push((num, name, self.int.id_of_file(&p), "reg"));
+            } else if md.file_type().is_symlink() {
+                match std::fs::metadata(&p) {
+                    Ok(t) if t.is_file() => dir_p.push((num, name, self.int.id_of_file(&p), "link")),
+                    Ok(_) => nonfiles.push((num, name, "link_to_dir")),
+                    Err(_) => nonfiles.push((num, name, "dangling")),
+                }
+            } else if md.is_dir() {
+                nonfiles.push((num, name, "dir"));
+            } else {
+                nonfiles.push((num, name, "special"));
             }
         }
         dir_p.sort();
-        // summary used to tell tampering kinds apart (known findings): missing > foreign > misplaced > ok
-        let mut worst = "ok";
+        nonfiles.sort();
+        // summary used to tell tampering kinds apart (known findings):
+        // missing > foreign > misplaced > nonreg_link > nonreg_dir > nonreg_dangling > ok
+        let mut rank = 0;
+        let labels = ["ok", "nonreg_dangling", "nonreg_dir", "nonreg_link", "misplaced", "foreign", "missing"];
+        let mut bump_to = |r: usize| rank = rank.max(r);
         if range_valid {
-            for (num, name, did) in &dir_p {
-                if *num < lo || *num > hi {
+            for (num, name, did, kind) in &dir_p {
+                if *num < lo || *num > hi || cert_by_name.get(name) == Some(did) {
                     continue;
                 }
-                if cert_by_name.get(name) == Some(did) {
-                    continue;
-                }
-                if cert_ids.contains(did) {
-                    if worst == "ok" {
-                        worst = "misplaced";
-                    }
+                if *kind == "link" {
+                    bump_to(3);
+                } else if cert_ids.contains(did) {
+                    bump_to(4);
                 } else {
-                    worst = "foreign";
+                    bump_to(5);
                 }
             }
             if !case.allow_missing {
                 for num in lo..=hi {
                     for ext in EXTS {
-                        if !dir_p.iter().any(|d| d.1 == fname(num as i64, ext)) {
-                            worst = "missing";
+                        let name = fname(num as i64, ext);
+                        if dir_p.iter().any(|d| d.1 == name) {
+                            continue;
+                        }
+                        match nonfiles.iter().find(|d| d.1 == name) {
+                            Some((_, _, "dangling")) => bump_to(1),
+                            Some(_) => bump_to(2),
+                            None => bump_to(6),
                         }
                     }
                 }
             }
         }
+        let worst = labels[rank];
+        let entry_kinds: Vec<&str> = {
+            let mut k: Vec<&str> = dir_p.iter().filter(|d| d.3 != "reg").map(|d| d.3).chain(nonfiles.iter().map(|d| d.2)).collect();
+            k.sort();
+            k.dedup();
+            k
+        };
         let (served_root, served_root_canonical, served_names) = Self::served_roots(&served_file, w.n);
         let obj = res.as_object_mut().unwrap();
         for k in ["missing", "tampered", "nonVerifiable"] {
@@ -334,7 +383,9 @@ impl Runner {
         obj.insert("hi".into(), json!(hi));
         obj.insert("allowMissing".into(), json!(case.allow_missing));
         obj.insert("cert".into(), json!(cert_p));
-        obj.insert("dir".into(), json!(dir_p.iter().map(|(num, name, did)| json!({"name": name, "num": num, "did": did})).collect::<Vec<_>>()));
+        obj.insert("dir".into(), json!(dir_p.iter().map(|(num, name, did, kind)| json!({"name": name, "num": num, "did": did, "kind": kind})).collect::<Vec<_>>()));
+        obj.insert("nonfiles".into(), json!(nonfiles.iter().map(|(num, name, kind)| json!({"name": name, "num": num, "kind": kind})).collect::<Vec<_>>()));
+        obj.insert("entryKinds".into(), json!(entry_kinds));
         obj.insert("signedRoot".into(), json!(w.signed_root));
         obj.insert("servedRoot".into(), json!(served_root));
         obj.insert("servedRootCanonical".into(), json!(served_root_canonical));
@@ -363,6 +414,18 @@ impl Runner {
             pat,
             served: ent(&c["served"]),
             imm: ent(&c["dir"]["imm"]),
+            nonreg: c["dir"]["nonreg"]
+                .as_array()
+                .map(|a| {
+                    a.iter()
+                        .map(|e| {
+                            let k = e["k"].as_str().unwrap().to_string();
+                            let bytes = if k == "link" { content(seed, e["cid"].as_u64().unwrap()) } else { vec![] };
+                            (fname(e["num"].as_i64().unwrap(), e["ext"].as_str().unwrap()), k, bytes)
+                        })
+                        .collect()
+                })
+                .unwrap_or_default(),
             decoy: c["dir"]["decoy"].as_str().unwrap().to_string(),
             extra: vec![],
             range: (c["r"]["kind"].as_str().unwrap().to_string(), c["r"]["a"].as_u64().unwrap(), c["r"]["b"].as_u64().unwrap()),
@@ -379,12 +442,13 @@ impl Runner {
         let mut imm: BTreeMap<String, Vec<u8>> = w.cert.clone();
         let mut served: Vec<(String, Vec<u8>)> = w.cert.iter().map(|(k, v)| (k.clone(), v.clone())).collect();
         let mut extra = vec![];
+        let mut nonreg: Vec<(String, String, Vec<u8>)> = vec![];
         let mut label = vec![];
         let pick = |r: &mut ChaCha20Rng| names[below(r, names.len() as u64) as usize].clone();
         for _ in 0..below(r, 4) {
             let f = pick(r);
             let g = pick(r);
-            match below(r, 11) {
+            match below(r, 15) {
                 0 => {
                     let mut b = w.cert[&f].clone();
                     if !b.is_empty() {
@@ -441,11 +505,42 @@ impl Runner {
                     }
                     label.push("extra_next_trio");
                 }
-                _ => {
+                10 => {
                     imm.insert(f, vec![]);
                     label.push("empty");
                 }
+                11 => {
+                    if imm.remove(&f).is_some() {
+                        nonreg.push((f, "dir".to_string(), vec![]));
+                        label.push("dir_for_file");
+                    }
+                }
+                12 => {
+                    if imm.remove(&f).is_some() {
+                        nonreg.push((f, "dangling".to_string(), vec![]));
+                        label.push("dangling_link");
+                    }
+                }
+                _ => {
+                    if imm.remove(&f).is_some() {
+                        let (bytes, l) = match below(r, 3) {
+                            0 => (w.cert[&f].clone(), "link_same"),
+                            1 => (w.cert[&g].clone(), "link_other"),
+                            _ => (content(self.seed, 74), "link_foreign"),
+                        };
+                        nonreg.push((f, "link".to_string(), bytes));
+                        label.push(l);
+                    }
+                }
             }
+        }
+        // a name holds one entry only
+        let taken: Vec<String> = nonreg.iter().map(|e| e.0.clone()).collect();
+        nonreg.dedup_by(|a, b| a.0 == b.0);
+        let mut seen_names = std::collections::HashSet::new();
+        nonreg.retain(|e| seen_names.insert(e.0.clone()));
+        for n in &taken {
+            imm.remove(n);
         }
         for _ in 0..below(r, 3) {
             let i = below(r, served.len() as u64) as usize;
@@ -496,6 +591,7 @@ impl Runner {
             pat: "distinct".into(),
             served,
             imm: imm.into_iter().collect(),
+            nonreg,
             decoy: "none".into(),
             extra,
             range,
@@ -567,7 +663,7 @@ fn main() {
             let mk = |label: &str, f: &dyn Fn(&mut BTreeMap<String, Vec<u8>>), decoy: &str| {
                 let mut imm = w.cert.clone();
                 f(&mut imm);
-                Case { n: 3, pat: "distinct".into(), served: honest.clone(), imm: imm.into_iter().collect(), decoy: decoy.into(), extra: vec![],
+                Case { n: 3, pat: "distinct".into(), served: honest.clone(), imm: imm.into_iter().collect(), nonreg: vec![], decoy: decoy.into(), extra: vec![],
                        range: ("full".into(), 0, 0), allow_missing: false, pred: Value::Null, label: label.into() }
             };
             let cases = vec![
@@ -583,6 +679,22 @@ fn main() {
                    &|m| { m.insert("00001.chunk".into(), b"tampered content".to_vec()); }, "first"),
                 mk("same, <x> after `immutable` in readdir order", &|m| { m.insert("00001.chunk".into(), b"tampered content".to_vec()); }, "after"),
             ];
+            let mut cases = cases;
+            for (label, kind, bytes) in [
+                ("00003.chunk is a directory", "dir", vec![]),
+                ("00003.chunk is a symbolic link to a foreign file", "link", b"foreign bytes behind a link".to_vec()),
+                ("00003.chunk is a symbolic link to 00002.chunk", "link", w.cert["00002.chunk"].clone()),
+                ("00003.chunk is a symbolic link to a copy of the genuine 00003.chunk", "link", w.cert["00003.chunk"].clone()),
+                ("00003.chunk is a dangling symbolic link", "dangling", vec![]),
+            ] {
+                for allow_missing in [false, true] {
+                    let mut c = mk(label, &|m| { m.remove("00003.chunk"); }, "none");
+                    c.nonreg = vec![("00003.chunk".into(), kind.into(), bytes.clone())];
+                    c.allow_missing = allow_missing;
+                    c.label = format!("{label}{}", if allow_missing { " (allow_missing)" } else { "" });
+                    cases.push(c);
+                }
+            }
             for (i, c) in cases.iter().enumerate() {
                 run.run_case(i as u64, c);
             }
